@@ -36,7 +36,10 @@ def _is_container(v):
         return True
     if isinstance(v, ast.Call):
         cn = (call_name(v) or "").split(".")[-1]
-        return cn in ("dict", "list", "set", "defaultdict", "OrderedDict", "deque", "Counter", "Random")
+        if cn in ("dict", "list", "set", "defaultdict", "OrderedDict", "deque", "Counter", "Random"):
+            return True
+        # NumPy arrays are mutable in place as well
+        return (call_name(v) or "").split(".")[0] in ("np", "numpy") and cn in ("zeros", "ones", "empty", "full", "array", "arange", "zeros_like", "ones_like")
     return False
 
 
@@ -48,6 +51,7 @@ def run(repo, rep):
     rule_state(repo, rep)
     rule_random(repo, rep)
     rule_order(repo, rep)
+    rule_singletons(repo, rep)
     rep.clause("C14-d", "a compilation works on private copies of the model's constant data (it neither mutates the caller's buffer nor shares storage between tensors) [rule shared with C11-d3]")
     from . import c11
 
@@ -67,14 +71,14 @@ def rule_state(repo, rep):
             if isinstance(st, (ast.Assign, ast.AnnAssign)):
                 t = st.targets[0] if isinstance(st, ast.Assign) else st.target
                 v = st.value
-                if isinstance(t, ast.Name) and v is not None and _is_container(v) and not t.id.isupper():
+                if isinstance(t, ast.Name) and v is not None and _is_container(v):
                     stores[(m.name, t.id)] = ("module", t.id)
             if isinstance(st, ast.ClassDef):
                 for s2 in st.body:
                     if isinstance(s2, (ast.Assign, ast.AnnAssign)):
                         t = s2.targets[0] if isinstance(s2, ast.Assign) else s2.target
                         v = s2.value
-                        if isinstance(t, ast.Name) and v is not None and _is_container(v) and not t.id.isupper() and not t.id.startswith("__"):
+                        if isinstance(t, ast.Name) and v is not None and _is_container(v) and not t.id.startswith("__"):
                             stores[(m.name, f"{st.name}.{t.id}")] = ("class", st.name, t.id)
         for q, fn in m.functions.items():
             if any("lru_cache" in norm(d) for d in fn.decorator_list):
@@ -100,6 +104,17 @@ def rule_state(repo, rep):
                     d = dotted(b)
                     if d:
                         targets.append((m.name, q, d))
+    # aliases: `obj.attr = <store>` makes every later in-place write through `.attr` a write to the store
+    alias = {}
+    for m in repo.core_modules():
+        for q, fn in m.functions.items():
+            for n in walk_no_nested(fn):
+                if isinstance(n, ast.Assign) and len(n.targets) == 1 and isinstance(n.targets[0], ast.Attribute):
+                    d = dotted(n.value)
+                    if d:
+                        for key, info in stores.items():
+                            if info[0] != "lru" and _refers(d, info, m.name, key[0]):
+                                alias.setdefault(key, set()).add(n.targets[0].attr)
     written = {}
     for key, info in stores.items():
         mname = key[0]
@@ -107,6 +122,7 @@ def rule_state(repo, rep):
             written[key] = ["memoised calls"]
             continue
         pats = [f"{mn}:{q}" for mn, q, d in targets if _refers(d, info, mn, mname)]
+        pats += [f"{mn}:{q} (through alias .{d.split('.')[-1]})" for mn, q, d in targets if "." in d and d.split(".")[-1] in alias.get(key, ())]
         if pats:
             written[key] = sorted(set(pats))
     vela = repo.mod("vela")
@@ -307,3 +323,55 @@ def rule_order(repo, rep):
               "the tensor collection is insertion ordered (dict.fromkeys), so equal-named tensors keep a history-independent order", norm(ts[0].value) if ts else "")
     # Tensor ordering falls back to uuid only after the name
     rep.floor("C14-c", 3)
+
+
+# ------------------------------------------------------------------ e
+
+
+def rule_singletons(repo, rep):
+    """Objects created at module level (the option serializers held in the operator maps) live for the whole process.
+    An attribute such an object assigns outside __init__ is process-wide state; it is harmless only if no method
+    reads it before (re)assigning it in the same call, i.e. every read is dominated by an assignment in that method."""
+    rep.clause("C14-e", "objects instantiated at module level (option serializers) carry no state from one use to the next: an attribute assigned outside __init__ is never read before it is assigned again in the same method")
+    allcls = {}
+    for m in repo.core_modules():
+        for cn in m.classes:
+            allcls.setdefault(cn, []).append(m)
+    single = {}
+    for m in repo.core_modules():
+        for st in m.tree.body:
+            if isinstance(st, (ast.Assign, ast.AnnAssign, ast.Expr)):
+                for n in ast.walk(st):
+                    if isinstance(n, ast.Call) and isinstance(n.func, ast.Name) and n.func.id in allcls and len(allcls[n.func.id]) == 1:
+                        single[n.func.id] = allcls[n.func.id][0]
+    if "CustomOptionsSerializer" not in single:
+        raise AnalysisError("module-level serializer instances not found")
+    n = 0
+    for cn, m in sorted(single.items()):
+        methods = {q: f for q, f in m.functions.items() if q.startswith(cn + ".") and q.count(".") == 1}
+        late = set()
+        for q, f in methods.items():
+            if q.endswith(".__init__"):
+                continue
+            for st in ast.walk(f):
+                if isinstance(st, (ast.Assign, ast.AugAssign, ast.AnnAssign)):
+                    for t in (st.targets if isinstance(st, ast.Assign) else [st.target]):
+                        if isinstance(t, ast.Attribute) and norm(t.value) == "self":
+                            late.add(t.attr)
+        for attr in sorted(late):
+            n += 1
+            rep.ok("C14-e", f"ethosu/vela/{m.name}.py:{cn}", f"self.{attr} is assigned outside __init__ (process-wide state of the module-level {cn} instances)", "reads inside the class are checked one by one")
+            for q, f in methods.items():
+                if q.endswith(".__init__"):
+                    continue
+                c = cfg_of(f)
+                writes = [nd.id for nd in c.nodes[3:] if nd.stmt is not None and isinstance(nd.stmt, (ast.Assign, ast.AnnAssign)) and nd.kind != "test" and
+                          any(isinstance(t, ast.Attribute) and norm(t) == f"self.{attr}" for t in (nd.stmt.targets if isinstance(nd.stmt, ast.Assign) else [nd.stmt.target]))]
+                for x in ast.walk(f):
+                    if isinstance(x, ast.Attribute) and isinstance(x.ctx, ast.Load) and norm(x) == f"self.{attr}":
+                        node = c.node_of(x)
+                        n += 1
+                        ok = node is not None and any(w != node and c.dominates(w, node) for w in writes)
+                        rep.check(ok, "C14-e", f"ethosu/vela/{m.name}.py:{q}", f"read of self.{attr} (process-wide {cn} instance) is preceded by an assignment in the same call",
+                                  f"`self.{attr}` is read at line {x.lineno} before this call assigns it: the value left by an earlier operator / compilation leaks into the output")
+    rep.floor("C14-e", 1)
